@@ -97,6 +97,28 @@ def run(out, tier, seed):
     cases += 1
     if bad:
         failures.append({"obligation": "C18/unknown-job-error", "inputs": "progress of unknown job", "observed": answer, "class": "history"})
+    # a result travels controller -> gateway -> front end -> client: what the client's own decoder (gateway.api.decoded_result) makes of the answer of
+    # handle_fe must be the value that was uploaded - for payloads covering every byte value (every character of the transfer encoding's alphabet)
+    import cloudpickle
+    from cascade.gateway import api as gw_api
+    values = [bytes(range(256)), b"\xfb\xef\xff" * 7, b"", b"\xff", "text \u00e9", list(range(300)), {"k": b"\xfb\xff\xfe" * 3}, 2 ** 70, None]
+    r = router.JobRouter(mock.MagicMock())
+    r.jobs["jr"] = router.Job(mock.MagicMock(), report.JobProgressStarted, -1, {})
+    for i, v in enumerate(values):
+        cases += 1
+        d = DatasetId("t", str(i))
+        s = Sock()
+        try:
+            s.inbox.append(report.serialize(report.ControllerReport("jr", None, 10 + i, [(d, cloudpickle.dumps(v))])))
+            server.handle_controller(s, r)
+            s.inbox.append(orjson.dumps({"clazz": "ResultRetrievalRequest", "job_id": "jr", "dataset_id": {"task": "t", "output": str(i)}}))
+            server.handle_fe(s, r)
+            resp = gw_api.parse_response(s.out[-1]) if hasattr(gw_api, "parse_response") else gw_api.ResultRetrievalResponse(**orjson.loads(s.out[-1]))
+            got = gw_api.decoded_result(resp, None)
+            if resp.error or got != v or type(got) is not type(v):
+                failures.append({"obligation": "C18/result-through-front-end-as-uploaded", "inputs": f"value #{i}: {v!r:.80}", "observed": f"client decodes {got!r:.120} (error field: {resp.error!r})", "class": "history"})
+        except Exception as e:  # noqa
+            failures.append({"obligation": "C18/result-through-front-end-as-uploaded", "inputs": f"value #{i}: {v!r:.80}", "observed": f"{type(e).__name__}: {e}", "class": "history"})
     # job identifiers are never reused - also when the id source repeats itself (real uuid.UUID objects, as uuid.uuid4 returns them)
     import uuid as _uuid
     ids = [_uuid.UUID(int=1), _uuid.UUID(int=1), _uuid.UUID(int=1), _uuid.UUID(int=2), _uuid.UUID(int=3)]
